@@ -278,8 +278,8 @@ def tail_unit(ip, restore, prune, save_hist):
         c.oblige(f"history.{nm}", H[nm] == want)
     if save_hist:
         for nm in ("a", "b"):
-            padded = ip.uf("at_set", hpos0[nm], U_((("slice", m + 1, None, None), Ellipsis)), nan_term(ip))
-            want = ip.uf("getitem", padded, U_((sl_to, Ellipsis))) if prune else padded
+            padded = ip.uf("at_set", hpos0[nm], U_(("slice", m + 1, None, None)), nan_term(ip))
+            want = ip.uf("getslice", padded, U_(sl_to)) if prune else padded
             c.oblige(f"history.position.{nm}", H["position"][nm] == want)
     c.oblige("max_iter_field", res.f["max_iter"] == st.f["max_iter"])
     c.notes.append(f"slice of optim_flat executed: lines {lines[0][0]}-{lines[-1][1]} (from `max_iter = val[...]` to the return)")
